@@ -199,7 +199,20 @@ class Run:
             self.trusted.update(scan_trusted(r.text, self.units))
             self.checker_cmds.append(r.cmd)
             self.samples.append({"obligation": clauses[0], "unit": n, "backend": "verus", "result": "discharged"})
+        elif r.status == "failed" and all(f.source_assert for f in r.failures):
+            # the only obligations that fail are assert! / debug_assert! macros written in the source of THIS tree: new obligations (they did
+            # not exist, hence did not pass, on the unchanged tree) which the contracts cannot discharge - e.g. an assertion inside a closure
+            # that holds at every call site.  Not a violation by itself: the bounded groups run with debug assertions ON, so an assertion
+            # that can fire shows up there as a panic with its input.  The unit is decided by the bounded stand-in, or stays undecided.
+            rep["reason"] = "verus rejected the world (unsupported construct): the tree adds assertion(s) that the contracts cannot discharge: " + \
+                "; ".join(sorted({f"{f.kind} @ {f.detail}" for f in r.failures}))[:300]
+            self.obligations += len(clauses)
+            rep["status"] = "undecided"
+            rep["obligations_not_discharged"] = len(clauses)
+            self.standin_candidates.append((n, rep["reason"], rep))
         elif r.status == "failed":
+            # (failures on source-level assertions are dropped when contract obligations fail as well: the latter decide)
+            r.failures = [f for f in r.failures if not f.source_assert] or r.failures
             def cname(f):
                 if f.clause:
                     return f.clause
@@ -253,7 +266,12 @@ class Run:
             if not res:
                 why = "the bounded back end is not available"
             else:
-                for r in res:
+                # a group that calls the changed private function directly may not compile against this tree; the groups that reach the
+                # function through the public evaluator then stand in alone (at least one group must have run)
+                avail = [r for r in res if not r.get("unavailable")]
+                if not avail:
+                    why = f"bounded group {res[0]['group']} does not compile against this tree"
+                for r in avail:
                     if r.get("unavailable"):
                         why = f"bounded group {r['group']} does not compile against this tree"
                     elif not r["evaluations"]:
@@ -274,7 +292,8 @@ class Run:
             if why:
                 self.undecided.append(f"{n}: {reason}; no bounded stand-in: {why}")
                 continue
-            n_eval = sum(r["evaluations"] for r in res)
+            n_eval = sum(r["evaluations"] for r in res if not r.get("unavailable"))
+            groups = [r["group"] for r in res if not r.get("unavailable")]
             if rep not in self.unit_reports:
                 self.unit_reports.append(rep)
             rep["status"] = "bounded-stand-in"
